@@ -1287,9 +1287,13 @@ def check_scenario(ctx: fw.Ctx, sc: dict, cases: list[fw.Case], label: str = '')
     extra['internal'].append(fw.Case(f'internal_ok init {lbls}', data))
     if res.lingered is not None and res.trigger_order is not None:
         prefix = [l for l, o in zip(tr.labels, tr.origin) if o < res.trigger_order]
-        extra['quiescent'].append(fw.Case(f'quiescent_after {cq.clist(prefix)} && negb (returned_with {cq.clist(prefix)} ROk)',
-                                          {'scenario': describe(sc), 'labels': prefix}))
-        ctx.count('internal_tie', 'quiescent-where-the-operator-lingered')
+        # (with peering the lingering operator is not idle: the surviving keep-alive keeps producing peering events and
+        #  short-lived workers; there only "the shutdown has not begun" is compared)
+        pl = cq.clist(prefix)
+        term = f'not_begun_after {pl}' if sc.get('peering') else f'quiescent_after {pl} && not_begun_after {pl}'
+        extra['quiescent'].append(fw.Case(term, {'scenario': describe(sc), 'labels': prefix}))
+        ctx.count('internal_tie', 'not-begun-where-the-operator-lingered(peering)' if sc.get('peering')
+                  else 'quiescent-where-the-operator-lingered')
     trig_labels = [i for i, l in enumerate(tr.labels) if l in ('StopFlag', 'Cancel', 'Signal')]
     if tr.result is not None and len(trig_labels) == 1 and res.lingered is None and not sc['trigger'].get('second'):
         prefix = tr.labels[:trig_labels[0] + 1]
